@@ -38,6 +38,21 @@ def gen_cases(c, scale):
         if len(d) > 1:
             k = rng.randrange(1, len(d))
             cases.append(Case(api, rng.choice(["hc", "rst"]), cut(d[:k], random_cuts(rng, k, rng.choice([0, 1, 2]))), tag="truncated"))
+    # kept-alive connections: first request with one 1025..2040 byte variable, then ordinary / mutated requests
+    for i in range(10 * scale):
+        api = rng.choice(["http", "fastcgi"])
+        parts = []
+        for j in range(rng.choice([2, 3])):
+            r = gen_absreq(rng, bigvalue=(j == 0))
+            if j > 0:
+                r.headers += [(b"X-Fill-%d" % t, rand_bytes(rng, rng.choice([200, 300, 600]), TOKEN_CHARS)) for t in range(rng.choice([3, 6, 9]))]
+            r.keep = True; r.http11 = True
+            enc, q, ck = encode_all(r, rng)
+            parts.append(enc[api])
+        d = b"".join(parts)
+        if rng.random() < 0.3:
+            d = mutate_bytes(rng, d)
+        cases.append(Case(api, "hc", segmentations(rng, d, 1)[-1], tag="keepalive-largefirst"))
     # truncation at every offset of one short request per front-end
     r = gen_absreq(rng); r.headers = r.headers[:2]; r.path = r.path[:5]; r.body = r.body[:12] if r.post is None else r.body
     enc, q, ck = encode_all(r, rng)
